@@ -263,7 +263,7 @@ def judge(ctx, c, case, obs, rep, c02reply, prop):
 def evaluate(ctx, drv, cases):
     vidx = [i for i, c in enumerate(cases) if c03.needs_c02(c)]
     c02 = drv.run([{'op': 'c02.verify', 'L': cases[i]['L'], 'sizes': cases[i]['sizes'], 'disk': cases[i]['disk'],
-                    'flips': cases[i]['flips'], 'single': False, 'pathIsDir': True} for i in vidx])
+                    'flips': c03.model_flips(cases[i]), 'single': False, 'pathIsDir': True} for i in vidx])
     c02by = dict(zip(vidx, c02))
     results = common.pmap(c03._run_chunk, common.split(cases, common.NPROC * 4))
     flat = [x for chunk in results for x in chunk]
